@@ -400,13 +400,13 @@ def run(pid, cfg, tier, seed, scr, only, a, t0):
             log("KANI-BUILD-FAILED (harnesses do not compile against this tree or kani crashed):")
             log(tail)
             continue
-        # second pass for resource-type undecided results (time-out, out-of-memory, solver error): fewer jobs, 3x the time.
+        # second pass for resource-type undecided results (time-out, out-of-memory, solver error): fewer jobs, twice the time.
         # On the reference tree nothing ends up here; on a modified tree a harness that became much more expensive gets a
         # fair chance to be decided instead of silently dropping out of the verdict.
         retry = [q for q in res if q["status"] == "UNDECIDED" and re.search(r"timeout|out_of_memory|exit_code|without a failing check", q.get("detail", ""))]
-        if retry and len(retry) <= int(os.environ.get("VERIF_MAX_RETRY", "6")) and not os.environ.get("VERIF_NO_RETRY"):
+        if retry and len(retry) <= int(os.environ.get("VERIF_MAX_RETRY", "4")) and not os.environ.get("VERIF_NO_RETRY"):
             tkey = "timeout_q" if tier == "quick" else "timeout_t"
-            b2 = dict(batch, jobs=3, **{tkey: 3 * batch.get(tkey, 240 if tier == "quick" else 900)})
+            b2 = dict(batch, jobs=4, **{tkey: 2 * batch.get(tkey, 240 if tier == "quick" else 900)})
             b2["filter_q"] = b2["filter_t"] = [q["full"] for q in retry]
             b2["extra"] = batch.get("extra", []) + ["--exact"]
             res2, wall2, _tail2, cmd2 = run_kani_batch(scr, b2, tier, 100 + idx, None)
